@@ -1,6 +1,8 @@
 """Shared rule idioms over path summaries (DESIGN.md 4.1)."""
 from .engine import OPTION, RESULT, contains_kind, show
 
+ENGINE = None      # set by ./check: lets type questions about message / storage fields be answered from the facts
+
 ABI = ("instantiate", "execute", "query", "migrate", "reply", "sudo", "ibc_channel_open",
        "ibc_channel_connect", "ibc_channel_close", "ibc_packet_receive", "ibc_packet_ack", "ibc_packet_timeout")
 
@@ -500,12 +502,21 @@ def _resp_entries(path, r, depth):
                 return None
             sv = stp[0].value[var]
             elem = loop_elem(path, lk)
+            if sv == ("loopvar", lk, var, 0) or (sv[0] == "resp" and sv[2] == (("base", ("loopvar", lk, var, 0)),) and sv[3] is None):
+                return base             # the iteration only adds attributes / events: the messages are those at loop entry
             if not (sv[0] == "resp" and len(sv[2]) == 2 and sv[2][0] == ("base", ("loopvar", lk, var, 0))
                     and sv[2][1][0] in ("msg", "submsg") and sv[2][1][1] == elem and sv[3] is None):
                 return None
             return base + [(sv[2][1][0] + "s", coll)]
         # zero iterations on this path: the kind of the entries is the collection's (a prepare_hooks result is sub-messages)
         subs = coll[0] == "call" and coll[1].endswith("prepare_hooks")
+        if ENGINE is not None and not subs:
+            c0 = coll
+            while c0[0] == "call" and c0[2] and c0[1].split("::")[-1] in ("iter", "into_iter", "cloned", "copied", "clone", "to_vec"):
+                c0 = c0[2][0]
+            ty = ENGINE.collection_type(path.entry, c0)
+            if ty is not None and not any(m in ty for m in ("CosmosMsg", "SubMsg", "BankMsg", "WasmMsg")):
+                return base             # a loop over something that is not a list of messages (coins, votes, members) adds none
         return base + [("submsgs" if subs else "msgs", coll)]
     return None
 
@@ -620,6 +631,14 @@ def cell_delta(eff, field=None, path=None):
             and any(c[0] == eff.old and c[1] == "None" for c in path.conds):
         # read-modify-write of an entry this path decided absent (`match old { Some(x) => x + a, None => a }`): previous = 0
         return Delta(n, ("inexact operation %s" % n.inexact) if n.inexact else None, eff)
+    if not prevs and eff.old is not None and eff.old[0] == "vfield" and eff.old[1][0] == "may_load":
+        # the previous value cancelled out of the new one (`stake - stake`) or the cell is overwritten by something computed from
+        # elsewhere: with the previous value read at this very write (read-modify-write, no write in between) the change is still
+        # exactly new - previous
+        from .prims import is_rmw
+        if is_rmw(eff):
+            n.add_atom(("orzero", eff.old), -1)
+            return Delta(n, ("inexact operation %s" % n.inexact) if n.inexact else None, eff)
     if len(prevs) != 1 or prevs[0][1] != 1:
         return Delta(None, "value written is not (previous value of the same cell) plus/minus something: %s" % show(v)[:200], eff)
     if prevs[0][2] != eff.ver:
